@@ -289,6 +289,10 @@ def _check_own(ctx):
     from .roles import M_KEY, M_VAL
     n_ops = cursor.check_cursor(ctx, prog, R, {M_KEY, M_VAL})
     ctx.floor("field-position", "record field accesses checked", n_ops, 30)
+    # ---- (4c) payload integrity -----------------------------------------------------------------
+    from . import payload
+    payload.check_stored_length_reads(ctx, prog, R)
+    payload.check_payload_sources(ctx, prog, R)
     # ---- (5) bitmap --------------------------------------------------------------------------
     c04bitmap.check_bitmap(ctx, prog, R)
     # ---- (6) phantom types -------------------------------------------------------------------
@@ -313,3 +317,5 @@ def check(ctx):
     import_rules(ctx, "c06", {"free-slot-field-position", "no-lost-link-update", "large-pop-conservation"})
     import_rules(ctx, "c09", {"sizer-covers-writer", "slot-honoured"})
     import_rules(ctx, "c08", {"relink"})
+    import_rules(ctx, "c01", {"op-wiring"})
+    import_rules(ctx, "c07", {"stored-count-wins"})
